@@ -247,7 +247,7 @@ class Spec:
         elif k == "Q":
             want = None
             if self.last is not None and self.last[0] == op[2] and self.last[1] is not None:
-                want = "cached:" + body_tok(self.last[1])
+                want = "cached:" + self.last[1]      # verbatim: the body that was actually handed out before
             if want is not None and out != want:
                 v.append({"clause": "replay: same ack as the previous request gets the previous response again",
                           "class": "replay-not-served", "step": i, "want": want, "got": out})
@@ -279,7 +279,7 @@ class Spec:
                     self.sim_out += [e for e in want[1] if e[0] == 0]
                     self.inj_out += [e for e in want[1] if e[0] == 1]
                 self.pending_inj = []
-                self.last = (ack, want)
+                self.last = (ack, None if want is None else (out[5:] if ok else body_tok(want)))
             else:
                 if out != "body:" + body_tok(body):
                     v.append({"clause": "non-200 / undef responses are passed through untouched", "class": "passthrough-changed",
